@@ -248,7 +248,7 @@ func scenario(w *vt.Writer, t *conc.Target, ops []*op, G, K int, sc int) {
 }
 
 func kFor(t *conc.Target, G int, full bool) int {
-	k := 40
+	k := 32
 	if full {
 		k = 120
 	}
